@@ -17,18 +17,24 @@ open CamVerif CamVerif.Cache
 def Coherent (c : Store) (d : Dev) : Prop :=
   ∀ n a l bs, c.get n a l = some bs → d.peek a l = some bs
 
+/-- `k` is a value the selector node `s` can have (as far as `selRange` bounds it). -/
+def InSelRange (g : Graph) (s : NodeId) (k : Int) : Prop :=
+  match selRange g s with
+  | some (lo, hi) => lo ≤ k ∧ k ≤ hi
+  | none => True
+
 /-- Addresses register `r` can evaluate to: its constant address, or (selector-addressed,
-no wrap-around, i.e. `dev` profile) constant plus a multiple of the stride. -/
-def KeyAddr (p : Profile) (r : Reg) (a : Int) : Prop :=
+no wrap-around, i.e. `dev` profile) constant plus stride times a possible selector value. -/
+def KeyAddr (p : Profile) (g : Graph) (r : Reg) (a : Int) : Prop :=
   match r.sel with
   | none => a = r.base
-  | some (_, off) => p.overflowChecks = true → ∃ k : Int, a = r.base + k * off
+  | some (s, off) => p.overflowChecks = true → ∃ k : Int, a = r.base + k * off ∧ InSelRange g s k
 
 /-- Cache keys belong to cachable registers of the description (whose `pPort` is a port), have
 the register's length and an address the register can evaluate to. -/
 def KeysOk (p : Profile) (g : Graph) (c : Store) : Prop :=
   ∀ n a l bs, c.get n a l = some bs →
-    ∃ r, g[n]? = some (.reg r) ∧ r.mode ≠ .noCache ∧ l = r.len ∧ g[r.port]? = some .port ∧ KeyAddr p r a
+    ∃ r, g[n]? = some (.reg r) ∧ r.mode ≠ .noCache ∧ l = r.len ∧ g[r.port]? = some .port ∧ KeyAddr p g r a
 
 /-- The invalidator table contains every `pInvalidator` registration of the description. -/
 def TableOk (g : Graph) (c : Store) : Prop :=
